@@ -16,6 +16,7 @@ mod ops_c24;
 mod ops_c25;
 mod ops_c23;
 mod ops_c11;
+mod ops_c22;
 // ADD-MODS-HERE
 
 fn main() {
